@@ -1,6 +1,7 @@
 (* C03 — property theorems (statements only; proofs in C03/Proofs.v), on the shared branch model C02/Model.v *)
 From Coq Require Import ZArith QArith List Bool.
 From PPV Require Import Base.QN Base.QC C31.Model C02.Model C02.CPlain C02.CField C02.Proofs C03.Model C03.Proofs.
+From PPV Require C01.Model C01.YbusModel C01.BranchModel C03.ComposeModel C03.Compose.     (* composition with C01, imported in Module Composed *)
 Import ListNotations.
 Open Scope Q_scope.
 
@@ -105,3 +106,46 @@ Theorem C03_t_model_row_loss_nonneg : forall br e vf vt sn r x g b rr xr,
   0 <= re (pl (fst (flows (stamps_core br e) vf vt sn)) (snd (flows (stamps_core br e) vf vt sn))).
 Proof. exact t_model_row_loss_nonneg. Qed.
 Print Assumptions C03_t_model_row_loss_nonneg.
+
+(* ---- composition with C01 (coq/C03/Compose.v): the nodal balances are no longer a hypothesis.
+   n : C01.Model.net (result-table side: gen rows after pfsoln, loads with their own ZIP law at the solved |V|, sgens, storages,
+   wards, shunts), ps : the in-service ppc branch rows (C01.BranchModel.prow over C02.Model.brow), V : the solved voltages,
+   v k = |V_k|, inj_of = V_k conj((Ybus V)_k) of the Ybus assembled from ps and the bus shunts, mism_p = the Newton P mismatch
+   in MW (an NR equation at every non-reference bus), G03 = C01's guard G01p (no ZIP-averaging defect) plus the slack power of a
+   reference bus being assignable, row_loss = the reported pl_mw = p_from + p_to of the row (C03.Model.loss_reported).
+   Zero mismatch and the guards  ==>  total generation - total consumption = sum of the reported branch losses. *)
+Module Composed.
+Import C01.Model C01.YbusModel C01.BranchModel C03.ComposeModel C03.Compose.
+Theorem C03_conservation_composed_with_C01 : forall n ref ps V (v : nat -> Q) buses,
+  ~ base n == 0 -> NoDup buses ->
+  (forall p, In p ps -> In (pr_f p) buses /\ In (pr_t p) buses) ->
+  (forall k, In k buses -> v k * v k == cnorm2 (vat V k)) ->
+  (forall k, In k buses -> G03 n ref k = true) ->
+  (forall k, In k buses -> (memn k ref && has_gen n k) = false -> mism_p n k (v k) (inj_of n ps V k) == 0) ->
+  qsum (map (fun k => gen_p n ref k (v k) (inj_of n ps V k) - cons_p n k (v k)) buses)
+  == qsum (map (row_loss V (base n)) ps).
+Proof. exact conservation_composed. Qed.
+Print Assumptions C03_conservation_composed_with_C01.
+(* with C03_pi_loss_nonneg on every row: the generation covers the consumption *)
+Theorem C03_generation_covers_consumption : forall n ref ps V (v : nat -> Q) buses,
+  ~ base n == 0 -> 0 <= base n -> NoDup buses ->
+  (forall p, In p ps -> In (pr_f p) buses /\ In (pr_t p) buses) ->
+  (forall k, In k buses -> v k * v k == cnorm2 (vat V k)) ->
+  (forall k, In k buses -> G03 n ref k = true) ->
+  (forall k, In k buses -> (memn k ref && has_gen n k) = false -> mism_p n k (v k) (inj_of n ps V k) == 0) ->
+  (forall p, In p ps -> row_passive (base n) p) ->
+  0 <= qsum (map (fun k => gen_p n ref k (v k) (inj_of n ps V k) - cons_p n k (v k)) buses).
+Proof. exact generation_covers_consumption. Qed.
+Print Assumptions C03_generation_covers_consumption.
+(* non-vacuity: reference bus -- resistive branch -- bus with a 100 % constant-impedance (voltage dependent) load at |V| = 13/20,
+   Newton mismatch exactly zero: generation - consumption = losses = 89/404 MW *)
+Example C03_composed_nonvacuous :
+  vdl ex_net = true /\ G03 ex_net [0%nat] 0 = true /\ G03 ex_net [0%nat] 1 = true /\
+  ex_v 1 * ex_v 1 == cnorm2 (vat ex_V 1) /\
+  mism_p ex_net 1 (ex_v 1) (inj_of ex_net ex_ps ex_V 1) == 0 /\
+  cons_p ex_net 1 (ex_v 1) == 1071 # 404 /\
+  qsum (map (fun k => gen_p ex_net [0%nat] k (ex_v k) (inj_of ex_net ex_ps ex_V k) - cons_p ex_net k (ex_v k)) [0; 1]%nat) == 89 # 404 /\
+  qsum (map (row_loss ex_V (base ex_net)) ex_ps) == 89 # 404.
+Proof. exact composed_nonvacuous. Qed.
+Print Assumptions C03_composed_nonvacuous.
+End Composed.
